@@ -1,11 +1,17 @@
 (* C16 -- relativedelta is a well-behaved value: normalised, comparable, hashable; operators.
    Statements only; the proofs are in rd/RdAlgThm.v, rd/RdAlgLaws.v, rd/RdAlgLaws2.v,
    rd/RdAlgLaws3.v, rd/RdAlgLaws4.v over the model rd/RdModel.v + rd/RdAlgModel.v and the spec rd/RdAlgSpec.v.
-   Every quantifier is unbounded (all of Z).  Float-valued fields and the float products of
-   * and / are outside these theorems (differential-tested by harness/check_C16.py). *)
+   Quantifiers range over all of Z.  DOMAIN: the code goes through C doubles in two places that the model
+   (and the translator) read as exact integer operations: _sign = int(copysign(1, x)) raises
+   OverflowError for |x| >= 2^1024, and d * k = int(field * float(k)) is exact only while k and every
+   product fit 53 bits.  Theorems about fix_rel / mk / the operators are therefore theorems about
+   the code for |fields| < 2^1024 (IDEALISED beyond: the model has Python ints all the way), and the
+   theorems about multiplication carry the bound `mul_exact` explicitly (rd/RdAlgBound.v).
+   Float-valued fields and float / Fraction scalars are outside these theorems (see the _partial
+   theorems at the end and harness/check_C16.py). *)
 From Coq Require Import ZArith List Bool.
 From V Require Import base.Cal gen.RdTables rd.RdBase rd.RdModel rd.RdAlgModel rd.RdAlgSpec
-  rd.RdAlgThm rd.RdAlgLaws rd.RdAlgLaws2 rd.RdAlgLaws3 rd.RdAlgLaws4 rd.RdAlgQModel rd.RdAlgQThm rd.RdAlgQLaws.
+  rd.RdAlgThm rd.RdAlgLaws rd.RdAlgLaws2 rd.RdAlgLaws3 rd.RdAlgLaws4 rd.RdAlgBound rd.RdAlgQModel rd.RdAlgQThm rd.RdAlgQLaws.
 Open Scope Z_scope.
 
 (* after _fix: |months| < 12, |hours| < 24, |minutes| < 60, |seconds| < 60, |microseconds| < 10^6 *)
@@ -67,18 +73,25 @@ Proof. exact ops_preserve_wf. Qed.
 Print Assumptions C16_ops_preserve_wf.
 
 (* ... and carries preserve the totals through the operators *)
-Theorem C16_ops_totals : forall a b k x y z,
+Theorem C16_ops_totals : forall a b x y z,
   (rel_us (rel (neg a)) = - rel_us (rel a) /\ rel_months (rel (neg a)) = - rel_months (rel a)) /\
   (rel_us (rel (add_rd a b)) = rel_us (rel a) + rel_us (rel b) /\
    rel_months (rel (add_rd a b)) = rel_months (rel a) + rel_months (rel b)) /\
   (rel_us (rel (sub_rd a b)) = rel_us (rel a) - rel_us (rel b) /\
    rel_months (rel (sub_rd a b)) = rel_months (rel a) - rel_months (rel b)) /\
-  (rel_us (rel (mul_int a k)) = rel_us (rel a) * k /\
-   rel_months (rel (mul_int a k)) = rel_months (rel a) * k) /\
   (rel_us (rel (add_td a x y z)) = rel_us (rel a) + ((x * 86400 + y) * 1000000 + z) /\
    rel_months (rel (add_td a x y z)) = rel_months (rel a)).
-Proof. exact totals_laws. Qed.
+Proof. exact totals_laws_nomul. Qed.
 Print Assumptions C16_ops_totals.
+
+(* d * k for an integer k, inside the float-exactness bound (k and every product below 2^53 in
+   absolute value): the totals are multiplied by k.  Beyond the bound the code rounds
+   ((relativedelta(days=2**53+1) * 1).days = 2**53); the unbounded statement mul_int_total is about the
+   idealised model only. *)
+Theorem C16_mul_totals_bounded : forall a k, mul_exact a k ->
+  rel_us (rel (mul_int a k)) = rel_us (rel a) * k /\ rel_months (rel (mul_int a k)) = rel_months (rel a) * k.
+Proof. exact mul_int_total_bounded. Qed.
+Print Assumptions C16_mul_totals_bounded.
 
 (* constructing a delta from its own fields reproduces it (Leibniz-equal, hence ==) *)
 Theorem C16_mk_fields_id : forall d, wf d -> mk (fields_of d) = Ok d.
@@ -118,11 +131,10 @@ Theorem C16_neg_neg_any : forall d, neg (neg d) = fix_rd d.
 Proof. exact neg_neg. Qed.
 Print Assumptions C16_neg_neg_any.
 
-(* d + (-d), (-d) + d, d - d and d * 0 have no relative part *)
+(* d + (-d), (-d) + d and d - d have no relative part *)
 Theorem C16_add_neg_no_relative : forall d,
-  no_rel (add_rd d (neg d)) = true /\ no_rel (add_rd (neg d) d) = true /\
-  no_rel (sub_rd d d) = true /\ no_rel (mul_int d 0) = true.
-Proof. exact no_relative_laws. Qed.
+  no_rel (add_rd d (neg d)) = true /\ no_rel (add_rd (neg d) d) = true /\ no_rel (sub_rd d d) = true.
+Proof. exact no_relative_laws_nomul. Qed.
 Print Assumptions C16_add_neg_no_relative.
 
 (* more precisely: d + (-d) is d with its relative fields zeroed *)
@@ -155,21 +167,29 @@ Theorem C16_ops_respect_eqb : forall a a' b b' k,
 Proof. exact ops_respect_eqb. Qed.
 Print Assumptions C16_ops_respect_eqb.
 
-(* d * 1 == d, d * -1 == -d, normalized() of an integer-valued delta is the delta, abs *)
+(* normalized() of an integer-valued delta is the delta; abs *)
 Theorem C16_scalar_laws : forall d,
-  (wf d -> mul_int d 1 = d) /\ mul_int d (-1) = neg d /\ (wf d -> normalized d = d) /\
-  all_nonneg (rel (abs_rd d)) /\ abs_rd (abs_rd d) = abs_rd d.
-Proof. exact scalar_laws. Qed.
+  (wf d -> normalized d = d) /\ all_nonneg (rel (abs_rd d)) /\ abs_rd (abs_rd d) = abs_rd d.
+Proof. exact scalar_laws_nomul. Qed.
 Print Assumptions C16_scalar_laws.
+
+(* d * 1 == d, d * -1 == -d, d * 0 has no relative part -- inside the float-exactness bound *)
+Theorem C16_scalar_mul_laws_bounded : forall d,
+  (wf d -> mul_exact d 1 -> mul_int d 1 = d) /\ (mul_exact d (-1) -> mul_int d (-1) = neg d) /\
+  (mul_exact d 0 -> no_rel (mul_int d 0) = true).
+Proof. exact scalar_laws_bounded. Qed.
+Print Assumptions C16_scalar_mul_laws_bounded.
 
 (* the relative part of a + b does not depend on the order of the operands *)
 Theorem C16_add_rel_comm : forall a b, rel (add_rd a b) = rel (add_rd b a).
 Proof. exact add_rel_comm. Qed.
 Print Assumptions C16_add_rel_comm.
 
-(* d * (p/q) for an exactly representable scalar: int(field * p/q) per field, then _fix *)
-Theorem C16_mul_q : forall d p q k, wf (mul_q d p q) /\ mul_q d k 1 = mul_int d k.
-Proof. exact mul_q_laws. Qed.
+(* d * (p/q) for an exactly representable scalar: int(field * p/q) per field, then _fix; for q = 1
+   and products inside the bound it is the integer product *)
+Theorem C16_mul_q : forall d p q k,
+  wf (mul_q d p q) /\ (mul_exact d k -> mul_q d k 1 = mul_int d k).
+Proof. exact mul_q_laws_bounded. Qed.
 Print Assumptions C16_mul_q.
 
 (* non-integer years or months (a rational p/q whose denominator does not divide p) are
@@ -266,10 +286,12 @@ Print Assumptions C16_float_ops_partial.
    theorems above, for ALL inputs, and never raise AttributeError.  (Required here, after the
    theorems about the hand model, so that a source change that breaks the translation leaves those
    counted as discharged and only the C16_gen_* obligations broken.) *)
-From V Require Import rd.RdGenBase gen.RdMethodsGen rd.RdGenThm.
+From V Require Import rd.RdGenBase gen.RdMethodsGen rd.RdGenThm rd.RdGenBound.
 
-Theorem C16_gen_sign : forall x, gen_sign x = sgn x.
-Proof. exact gen_sign_is_sgn. Qed.
+(* _sign = int(copysign(1, x)): -1 / +1 while float(x) exists; OverflowError from 2^1024 on (the
+   unbounded gen_sign_is_sgn is the idealised statement about the translation) *)
+Theorem C16_gen_sign : forall x, float_range x -> gen_sign x = sgn x.
+Proof. exact gen_sign_bounded. Qed.
 Print Assumptions C16_gen_sign.
 
 Theorem C16_gen_fix : forall o, gen_fix o = GOk (obj_of_rd (fix_rd (rd_of_obj o))).
@@ -306,8 +328,11 @@ Theorem C16_gen_normalized : forall o, gen_normalized o = GOk (obj_of_rd (normal
 Proof. exact gen_normalized_correct. Qed.
 Print Assumptions C16_gen_normalized.
 
-Theorem C16_gen_mul : forall o k, gen_mul o k = GOk (obj_of_rd (mul_int (rd_of_obj o) k)).
-Proof. exact gen_mul_correct. Qed.
+(* __mul__ by an int: float(other), int(field * f) read as the exact integer product -- the code's
+   behaviour inside the float-exactness bound only *)
+Theorem C16_gen_mul : forall o k, mul_exact (rd_of_obj o) k ->
+  gen_mul o k = GOk (obj_of_rd (mul_int (rd_of_obj o) k)).
+Proof. exact gen_mul_bounded. Qed.
 Print Assumptions C16_gen_mul.
 
 Theorem C16_gen_bool : forall o, gen_bool o = GOk (rd_bool (rd_of_obj o)).
